@@ -1,7 +1,220 @@
-import Aqv.Model.State
+/-
+  C09 — State snapshots revert exactly and the state root commits to content only.  Property theorems only.
+  Model: Aqv.Model.State (core/state/statedb.go, state_object.go, journal.go); helper lemmas in Aqv/Lemmas/State*.lean.
+
+  `view s` is everything the property's getters can see (per account: nonce, balance, code, storage, existence, the
+  self-destruct flag; refund counter; log list; preimages).  `Sim s t` says that no getter and no later journal undo can
+  tell `s` from `t`; it implies `view s = view t`.
+-/
+import Aqv.Lemmas.StateGood
 namespace Aqv.Props.C09
 open Aqv Aqv.State
 
-theorem placeholder : (1 : Nat) = 1 := rfl
+/-- **journal_complete**: every mutator appends journal entries that undo it — unwinding exactly the appended entries
+    leads back to a state indistinguishable from the one before the call, with the same journal. The only requirement on
+    the starting state is that deleted cached objects are absent from the trie (`Coherent`). -/
+theorem journal_complete (m : Mut) (s : SDB) (hc : Coherent s) :
+    ∃ es, (applyMut m s).journal = es ++ s.journal ∧
+      view (undoN es.length (applyMut m s)) = view s ∧ (undoN es.length (applyMut m s)).fault = s.fault ∧
+      (undoN es.length (applyMut m s)).journal = s.journal := by
+  obtain ⟨es, hj, hs, _⟩ := (ext_applyMut m s hc).ex
+  exact ⟨es, hj, view_eq_of_sim hs, hs.fault, by simp [undoN_journal, hj]⟩
+
+-- non-vacuity: the freshly opened empty state is coherent, and SetState on a non-existent account appends two entries
+example : Coherent (fresh (fun _ => none)) := fun a o h => by simp [fresh] at h
+example : (applyMut (.setState 1 0 7) (fresh (fun _ => none))).journal.length = 2 := by decide
+
+/-- **revert_exact**: take a snapshot in any state `s` that satisfies the transaction-level invariant, run ANY list of
+    mutators, nested snapshots and reverts (to any id that is live at that moment), then revert to the snapshot: every
+    getter — balance, nonce, code, storage, existence, emptiness, self-destruct flag, refund, logs, preimages — reports
+    what it reported in `s`; the journal and the revision stack are restored exactly and no fault (Go panic) is added. -/
+theorem revert_exact (s s2 r : SDB) (ops : List TxOp) (hi : TxInv s) (hro : RevsOK s)
+    (hrun : runTx ops (snapshot s).1 = some s2) (hrev : revertTo (snapshot s).2 s2 = some r) :
+    view r = view s ∧ r.fault = s.fault ∧ r.journal = s.journal ∧ r.revs = s.revs := by
+  obtain ⟨h1, h2, h3⟩ := revert_restores hi hro ops hrun hrev
+  exact ⟨view_eq_of_sim h1, h1.fault, h2, h3⟩
+
+/-- the individual getters named by the property, after the revert of `revert_exact`. -/
+theorem revert_exact_getters (s s2 r : SDB) (ops : List TxOp) (hi : TxInv s) (hro : RevsOK s)
+    (hrun : runTx ops (snapshot s).1 = some s2) (hrev : revertTo (snapshot s).2 s2 = some r) (a : Addr) (k : Slot) :
+    balanceOf r a = balanceOf s a ∧ nonceOf r a = nonceOf s a ∧ codeOf r a = codeOf s a ∧ stateOf r a k = stateOf s a k ∧
+    exist r a = exist s a ∧ isEmpty r a = isEmpty s a ∧ suicidedOf r a = suicidedOf s a ∧
+    r.refund = s.refund ∧ r.logs = s.logs := by
+  obtain ⟨h1, _, _⟩ := revert_restores hi hro ops hrun hrev
+  simp only [balanceOf, nonceOf, codeOf, stateOf, exist, isEmpty, suicidedOf]
+  rcases h1.look_cases a with ⟨hs, ht⟩ | ⟨o, p, hs, ht, this⟩
+  · rw [hs, ht]; exact ⟨rfl, rfl, rfl, rfl, rfl, rfl, rfl, h1.refund, h1.logs⟩
+  · rw [hs, ht]
+    exact ⟨this.2.1, this.1, this.2.2.1, this.2.2.2.2 k, rfl, this.empty, this.2.2.2.1, h1.refund, h1.logs⟩
+
+/-- **revert_exact on reachable states**: the invariant needed by `revert_exact` holds after every block-level history
+    (transactions with snapshots/reverts, Prepare, Finalise, Commit+Reset) from a freshly opened StateDB, provided all
+    Finalise calls of the history use one delete-empty flag `d`. (Mixed flags are excluded because of
+    `mixed_flags_break_revert_witness` below.) -/
+theorem revert_exact_reachable (c : Addr → Option Acct) (d : Bool) (pre : List Op) (hu : Uniform d pre)
+    (s s2 r : SDB) (hpre : run pre (fresh c) = some s) (ops : List TxOp)
+    (hrun : runTx ops (snapshot s).1 = some s2) (hrev : revertTo (snapshot s).2 s2 = some r) :
+    view r = view s ∧ r.fault = s.fault ∧ r.journal = s.journal ∧ r.revs = s.revs := by
+  have hr := reach_run pre (fresh c) s hu (reach_fresh d c) hpre
+  exact revert_exact s s2 r ops hr.inv hr.revs hrun hrev
+
+/-! ### concrete witnesses (the code as written falsifies the stronger statements) -/
+
+def emptyAcct : Acct := { nonce := 0, balance := 0, code := [], storage := fun _ => 0 }
+/-- a freshly opened state whose trie holds the EMPTY account 1 (and the empty account 3 = RIPEMD address). -/
+def pre1 : SDB := fresh (fun a => if a = 1 ∨ a = 3 then some emptyAcct else none)
+def runD (ops : List Op) (s : SDB) : SDB := (run ops s).getD s
+
+-- non-vacuity of `revert_exact_reachable`: a uniform history with a nested snapshot, a self-destruct and a re-creation
+example : Uniform true [.tx (.mutate (.setBalance 2 9)), .finalise true, .tx .snap, .tx (.mutate (.suicide 2)),
+    .tx (.mutate (.createAccount 2)), .tx (.revert 0), .finalise true] := by
+  intro d' h; simp at h; exact h.symm ▸ rfl
+example : (run [.tx (.mutate (.setBalance 2 9)), .finalise true, .tx .snap, .tx (.mutate (.suicide 2)),
+    .tx (.mutate (.createAccount 2)), .tx (.revert 0)] pre1).map (fun s => balanceOf s 2) = some 9 := by decide
+
+/-- **F1 (known defect) — revert is NOT exact through Finalise**: `snapshot; AddBalance(1,5); revert` on the pre-existing
+    empty account 1 restores every getter, yet the following `Finalise(true)` deletes account 1, whereas without the
+    reverted segment it keeps it. (Only touchChange.undo/createObjectChange.undo remove an address from the dirty set.) -/
+theorem revert_exact_through_finalise_witness :
+    exist (runD [.tx .snap, .tx (.mutate (.addBalance 1 5)), .tx (.revert 0)] pre1) 1 = true ∧
+    exist (runD [.tx .snap, .tx (.mutate (.addBalance 1 5)), .tx (.revert 0), .finalise true] pre1) 1 = false ∧
+    exist (runD [.finalise true] pre1) 1 = true := by decide
+
+/-- **F2 (defect) — a reverted touch disarms dirty tracking**: after `snapshot; AddBalance(1,0); revert` the later
+    `AddBalance(1,5)` is visible to the getters but never reaches the trie: the committed content still has balance 0. -/
+theorem reverted_touch_loses_write_witness :
+    balanceOf (runD [.tx .snap, .tx (.mutate (.addBalance 1 0)), .tx (.revert 0), .tx (.mutate (.addBalance 1 5))] pre1) 1 = 5 ∧
+    ((runD [.tx .snap, .tx (.mutate (.addBalance 1 0)), .tx (.revert 0), .tx (.mutate (.addBalance 1 5)), .finalise true] pre1).trie 1).map
+      (fun c => c.balance) = some 0 ∧
+    balanceOf (runD [.tx .snap, .tx (.mutate (.addBalance 1 0)), .tx (.revert 0), .tx (.mutate (.addBalance 1 5)), .commitReset true] pre1) 1 = 0 ∧
+    balanceOf (runD [.tx (.mutate (.addBalance 1 5)), .commitReset true] pre1) 1 = 5 := by decide
+
+/-- **F3 (defect, mixed flags) — `Finalise(false)` after `Finalise(true)` re-inserts an account deleted as empty**: the
+    getters say account 2 does not exist, the trie holds it again, and a reverted re-creation resurrects it — so
+    `revert_exact` fails for histories that mix the two flags on one StateDB (the state is no longer `Coherent`). -/
+theorem mixed_flags_break_revert_witness :
+    exist (runD [.tx (.mutate (.addBalance 2 0)), .finalise true, .finalise false] pre1) 2 = false ∧
+    ((runD [.tx (.mutate (.addBalance 2 0)), .finalise true, .finalise false] pre1).trie 2).isSome = true ∧
+    exist (runD [.tx (.mutate (.addBalance 2 0)), .finalise true, .finalise false, .tx .snap, .tx (.mutate (.addBalance 2 1)),
+      .tx (.revert 0)] pre1) 2 = true := by decide
+
+/-- **F4 (by design) — the touch of address 3 (RIPEMD) is not reverted**: journal.go skips the undo for this address, so
+    the reverted touch still deletes the empty account 3 at `Finalise(true)`. -/
+theorem ripemd_touch_not_reverted_witness :
+    exist (runD [.tx .snap, .tx (.mutate (.addBalance 3 0)), .tx (.revert 0), .finalise true] pre1) 3 = false ∧
+    exist (runD [.finalise true] pre1) 3 = true := by decide
+
+/-- API hazard: a StateDB used after `Commit` without `Reset` loses later writes (Commit empties the dirty set but does
+    not re-arm the callbacks). `Op.commitReset` models what every caller in /repo does instead. -/
+theorem commit_reuse_loses_write_witness :
+    let s := commit true (applyMut (.addBalance 2 10) pre1)
+    balanceOf (applyMut (.addBalance 2 5) s) 2 = 15 ∧
+    ((finalise true (applyMut (.addBalance 2 5) s)).trie 2).map (fun c => c.balance) = some 10 := by decide
+
+/-! ### Finalise and the iteration order of Go maps -/
+
+/-- **finalise_perm_invariant**: `Finalise` visits `stateObjectsDirty` in Go's unspecified map order; any two orders
+    (duplicate-free enumerations of the dirty set) produce the same state — trie content, cached objects and fault flag. -/
+theorem finalise_perm_invariant (d : Bool) (s : SDB) (o₁ o₂ : List Addr) (h₁ : o₁.Nodup) (h₂ : o₂.Nodup)
+    (m₁ : ∀ a, a ∈ o₁ ↔ a ∈ s.dirty) (m₂ : ∀ a, a ∈ o₂ ↔ a ∈ s.dirty) :
+    finaliseFold d o₁ s = finaliseFold d o₂ s := by
+  rw [finaliseFold_eq d s o₁ h₁ m₁, finaliseFold_eq d s o₂ h₂ m₂]
+
+-- non-vacuity: two different orders of a two-element dirty set
+example : ([1, 2] : List Addr).Nodup ∧ ([2, 1] : List Addr).Nodup := by decide
+
+
+/-! ### the root commits to content only
+
+  `Good d s` = the write-back cache invariant `BInv s` (every live cached object outside the dirty set still has its
+  callback and equals its trie leaf; every dirty address has a cached object; deleted objects are absent from the trie)
+  plus well-formed revisions plus "every tombstone would be deleted again by `Finalise d`".  `good_reachable` shows it holds
+  after every history that (a) uses one delete-empty flag for its Finalise calls and (b) never reverts a touch that found
+  the callback armed — the two excluded patterns are exactly the defects F3 and F2 witnessed above. -/
+
+/-- the invariant behind the root theorems holds in every state reachable by a safe history from a freshly opened StateDB. -/
+theorem good_reachable (c : Addr → Option Acct) (d : Bool) (ops : List Op) (s : SDB)
+    (hs : SafeOps d ops (fresh c)) (hrun : run ops (fresh c) = some s) : Good d s :=
+  good_run ops (fresh c) s (good_fresh d c) hs hrun
+
+-- non-vacuity: a safe history with a nested snapshot/revert, a self-destruct and a Finalise
+example : SafeOps true [.tx (.mutate (.setBalance 2 9)), .tx .snap, .tx (.mutate (.suicide 2)), .tx (.revert 0), .finalise true] pre1 := by
+  refine ⟨trivial, fun t ht => ?_⟩
+  simp only [step, stepTx, Option.some.injEq] at ht; subst ht
+  refine ⟨trivial, fun t ht => ?_⟩
+  simp only [step, stepTx, Option.some.injEq] at ht; subst ht
+  refine ⟨trivial, fun t ht => ?_⟩
+  simp only [step, stepTx, Option.some.injEq] at ht; subst ht
+  refine ⟨?_, fun t _ => ⟨rfl, fun _ _ => trivial⟩⟩
+  show ∀ r ∈ _, (r : Nat × Nat).1 = 0 → ∀ e ∈ _, Entry.armedTouch e = false
+  decide
+
+/-- **root_content_only**: the state root is a function `mptRoot` of the account-trie content (C10: a trie commits to exactly
+    its content). After `IntermediateRoot d` / `Commit d` in a `Good` state that content is exactly what the getters of the
+    StateDB report (`contentOf`): the root commits to the resulting set of accounts and their contents and to nothing else —
+    whatever history produced the state. -/
+theorem root_content_only {R : Type} (mptRoot : (Addr → Option Acct) → R) (d : Bool) (s : SDB) (hg : Good d s) :
+    mptRoot (finalise d s).trie = mptRoot (contentOf (finalise d s)) ∧
+    mptRoot (commit d s).trie = mptRoot (contentOf (commit d s)) := by
+  rw [trie_finalise_eq_content hg.binv hg.tomb.ok, trie_commit_eq_content hg.binv hg.tomb.ok]
+  exact ⟨rfl, rfl⟩
+
+/-- history independence: two StateDBs reached by ANY two safe histories whose getters report the same content after
+    `IntermediateRoot` return the same root. -/
+theorem root_history_independent {R : Type} (mptRoot : (Addr → Option Acct) → R) (d₁ d₂ : Bool) (s₁ s₂ : SDB)
+    (h₁ : Good d₁ s₁) (h₂ : Good d₂ s₂) (hc : contentOf (finalise d₁ s₁) = contentOf (finalise d₂ s₂)) :
+    mptRoot (finalise d₁ s₁).trie = mptRoot (finalise d₂ s₂).trie := by
+  rw [trie_finalise_eq_content h₁.binv h₁.tomb.ok, trie_finalise_eq_content h₂.binv h₂.tomb.ok, hc]
+
+-- non-vacuity: two different histories with the same net effect (set-then-clear vs nothing; different operation order)
+example : (contentOf (finalise true (runD [.tx (.mutate (.setBalance 2 9)), .tx (.mutate (.setState 4 1 7)), .tx (.mutate (.setNonce 4 1)),
+      .tx (.mutate (.setState 4 1 0))] pre1)) 4).map (fun c => (c.nonce, c.storage 1)) = some (1, 0) := by decide
+
+/-- **revert_exact_through_finalise — full statement (FALSE for the code as written, see
+    `revert_exact_through_finalise_witness` and `ripemd_touch_not_reverted_witness`)**:
+      for all s ops d:  view (finalise d (revert (run ops (snapshot s)))) = view (finalise d s)  and the roots agree.
+    **_partial**: it holds when (i) the history is safe (`SafeTx`, no reverted armed touch — F2), and (ii) the revert left
+    no account that `Finalise d` would delete in a different dirty-set status than it had at the snapshot (hypothesis `H`,
+    stated via the dirty set). `H` fails exactly when a reverted write (F1) or a reverted touch of 0x03 (F4) targets a
+    pre-existing empty account and `d = true`. What is missing for the full statement is a journalled dirty set in the code. -/
+theorem revert_exact_through_finalise_partial (d : Bool) (s s2 r : SDB) (ops : List TxOp) (hg : Good d s)
+    (hsafe : SafeTx ops (snapshot s).1) (hrun : runTx ops (snapshot s).1 = some s2)
+    (hlast : revertSafe (snapshot s).2 s2) (hrev : revertTo (snapshot s).2 s2 = some r)
+    (H : ∀ a o, look s a = some o → delCond d o = true → (a ∈ r.dirty ↔ a ∈ s.dirty)) :
+    view (finalise d r) = view (finalise d s) ∧ (finalise d r).trie = (finalise d s).trie := by
+  have hg1 : Good d (snapshot s).1 := good_stepTx hg .snap trivial rfl
+  have hg2 : Good d s2 := good_runTx ops _ s2 hg1 hsafe hrun
+  have hgr : Good d r := good_stepTx hg2 (.revert (snapshot s).2) hlast hrev
+  obtain ⟨hsim, _, _⟩ := revert_restores ⟨hg.binv.coh, hg.binv.jok⟩ hg.revs ops hrun hrev
+  obtain ⟨hobjs, htrie⟩ := finalise_respects_sim hgr.binv hg.binv hgr.tomb.ok hg.tomb.ok hsim H
+  refine ⟨?_, htrie⟩
+  have hacc : viewAt (finalise d r) = viewAt (finalise d s) := by
+    funext a; exact optView_eq (hobjs a)
+  simp only [view, hacc]
+  simp only [finalise, hsim.logs, hsim.preimages]
+
+/-- **copy_independent**: `Copy` reads back identically — every getter, the refund counter, the logs and the preimages —
+    and the copy again satisfies the invariant, so every theorem above applies to it on its own. (In the model states are
+    values: operations on the copy cannot affect the original by construction; aliasing in the Go code is what the harness
+    checks.) -/
+theorem copy_independent (d : Bool) (s : SDB) (hg : Good d s) : view (copy s) = view s ∧ Good d (copy s) := by
+  refine ⟨?_, good_copy hg⟩
+  have hacc : viewAt (copy s) = viewAt s := by
+    funext a; exact optView_eq (look_copy hg.binv a)
+  simp only [view, hacc]
+  rfl
+
+/-- **reopen_reads_back**: a StateDB opened at the root returned by `Commit d` (its trie holds the committed content) reports
+    for every account exactly what the committing StateDB reports after the Commit, and is itself a `Good` state. -/
+theorem reopen_reads_back (d : Bool) (s : SDB) (hg : Good d s) :
+    (∀ a, viewAt (fresh (commit d s).trie) a = viewAt (commit d s) a) ∧ Good d (fresh (commit d s).trie) :=
+  ⟨fun a => reopen_viewAt hg.binv hg.tomb.ok a, good_fresh d _⟩
+
+-- non-vacuity of the `Good` hypotheses: the pre-populated freshly opened state
+example : Good true pre1 := good_fresh true _
+-- non-vacuity of hypothesis `H` of the partial theorem: a reverted segment that creates, funds and self-destructs a NEW
+-- account leaves the dirty set exactly as it was (so `H` holds), whereas the F1 history does not
+example : (runD [.tx .snap, .tx (.mutate (.addBalance 2 5)), .tx (.mutate (.suicide 2)), .tx (.revert 0)] pre1).dirty = pre1.dirty := by decide
+example : (runD [.tx .snap, .tx (.mutate (.addBalance 1 5)), .tx (.revert 0)] pre1).dirty ≠ pre1.dirty := by decide
 
 end Aqv.Props.C09
